@@ -848,6 +848,8 @@ def mmac_module():
 
 
 mmac_module()
+# names that are prefixes of their siblings' names
+module("mpre", "Mpre", [Fn("get", ("impl", ["F0"]), ["u64", "u64"]), Fn("get_all", ("impl", ["F0"]), ["u64", "u64"]), Fn("get_", ("impl", ["F0"]), ["u64", "u64"]), Fn("ge", ("impl", ["F0"]), ["u64", "u64"])])
 # restricted-visibility fns BEFORE plain `pub` ones, all with interchangeable signatures
 _VIS = ["pub(crate)", "pub", "pub(in crate)", "pub", "pub(crate)", "pub"]
 module("mvis", "Mvis", [Fn(f"mv_{n}", ("impl", ["F0"]), ["u64", "u64"], vis=v) for n, v in zip("cadbef", _VIS)])
@@ -1137,7 +1139,7 @@ def self_impl_fn_text(fn, id_expr):
 
 
 def trait_section(name, delegate, methods, async_trait=False, generic=False, supers="", scoped=False, dual=False,
-                  nosend=False, opts_pre="", opts_post="", flavours=(), cross=False, macro_name="entrait"):
+                  nosend=False, opts_pre="", opts_post="", flavours=(), cross=False, macro_name="entrait", refimpl=False):
     """delegate: 'self' | 'ref' | 'borrow'; scoped: declare everything inside a
     module that imports Borrow / AsRef / Deref, as user code commonly does"""
     het = any(fn.hetero for fn in methods)
@@ -1205,6 +1207,18 @@ def trait_section(name, delegate, methods, async_trait=False, generic=False, sup
             fnm = "as_ref" if delegate == "ref" else "borrow"
             text += (f"{cfg}impl<const K: u16> {tr}<dyn {name} + {fl}> for App<K> {{\n    fn {fnm}(&self) -> &(dyn {name} + {fl} + 'static) {{\n"
                      f"        &self.{dfield}\n    }}\n}}\n")
+        if refimpl:
+            # the program also implements the trait for REFERENCES to implementors, and not as a
+            # transparent pass-through (function id 60008): one reference level too many in the
+            # generated forwarding call selects this impl instead of the provider
+            text += f"{cfg}{at}impl<G: {name} + ?Sized{' + Sync' if async_trait else ''}> {name} for &G {{\n"
+            for m in methods:
+                g = method_generics(m)
+                ps = ["&self"] + [p.sig(i, m.name) for i, p in enumerate(m.params)]
+                asy = "async " if m.is_async else ""
+                text += (f"    {asy}fn {m.name}{g}({', '.join(ps)}){RET_TEXT[m.ret]} {{\n        let __f = sim::enter(60008, sim::addr(self), &[]);\n"
+                         + "\n".join("        " + l for l in ret_tail(m, "")) + "\n    }\n")
+            text += "}\n"
         if cross:
             # a decoy provider handed out through the OTHER core trait (Borrow for `ref`, AsRef for
             # `Borrow`), same `dyn` flavour and with `+ Sync`
@@ -1380,6 +1394,10 @@ trait_section("ABorrowInd", "borrow", [
 trait_section("ByRefFl", "ref", [Fn("rfl1", SELF, ["u64", "u64"]), Fn("rfl2", SELF, ["u64", "u64"])], supers=": 'static", flavours=("Sync", "Send", "Send + Sync"))
 trait_section("ByBorrowFl", "borrow", [Fn("bfl1", SELF, ["u64", "u64"])], supers=": 'static", flavours=("Sync", "Send + Sync"))
 trait_section("ARefFl", "ref", [Fn("arfl1", SELF, ["u64", "u64"], is_async=True)], async_trait=True, supers=": Sync + 'static", flavours=("Sync", "Send + Sync"))
+trait_section("PlainPre", "self", [Fn("tget", SELF, ["u64", "u64"]), Fn("tget_all", SELF, ["u64", "u64"]), Fn("tget_", SELF, ["u64", "u64"]), Fn("tge", SELF, ["u64", "u64"])])
+trait_section("ByRefRI", "ref", [Fn("rri1", SELF, ["u64", "u64"]), Fn("rri_unit", SELF, ["u64"], ret="unit")], refimpl=True)
+trait_section("ByBorrowRI", "borrow", [Fn("bri1", SELF, ["u64", "u64"]), Fn("bri2", SELF, ["u64", "u64"])], refimpl=True)
+trait_section("ARefRI", "ref", [Fn("arri1", SELF, ["u64", "u64"], is_async=True), Fn("arri_sync", SELF, ["u64", "u64"])], async_trait=True, supers=": Sync", refimpl=True)
 trait_section("ByBorrowX", "borrow", [Fn("bx1", SELF, ["u64", "u64"]), Fn("bx_unit", SELF, ["u64"], ret="unit")], supers=": 'static", cross=True)
 trait_section("ByRefX", "ref", [Fn("rx1", SELF, ["u64", "u64"]), Fn("rx2", SELF, ["u64", "u64"])], supers=": 'static", cross=True)
 trait_section("ABorrowX", "borrow", [Fn("abx1", SELF, ["u64", "u64"], is_async=True), Fn("abx_sync", SELF, ["u64", "u64"])],
@@ -1602,7 +1620,8 @@ def inversion(trait, impl_trait, mode, methods, delegate_ident=None, async_trait
             if mi in fillers:
                 text += IMPL_FILLERS[mi % len(IMPL_FILLERS)].replace("SPAN", f"SPAN{mi}").replace("NAME", f"NAME{mi}").replace("HIDDEN", f"HIDDEN{mi}")
             f = Fn(decl.name, deps, [], ret=decl.ret, is_async=decl.is_async, calls=calls, vis="pub", below=getattr(decl, "impl_below", ""))
-            f.params = decl.params
+            # the block may NAME its parameters differently from the trait declaration (same types)
+            f.params = getattr(decl, "impl_params", None) or decl.params
             f.fn_id = decl.fn_ids[which]
             text += fn_text(f, indent="    ")
         text += "}\n"
@@ -1760,6 +1779,24 @@ _hs[2].impl_below = "#[inline]"
 inversion("InvHs", "InvHsImpl", "static", [(_hs[0], ("impl", ["F0"]), ["f0"]), (_hs[1], ("impl", ["Af0"]), ["af0"]), (_hs[2], ("any", []), [])], delegate_ident="DelegateInvHs")
 inversion("InvInto", "InvIntoImpl", "static", [(Fn("iinto_never", SELF, ["u64", "intonever"]), ("impl", ["F0"]), ["f0"]), (Fn("iinto_conv", SELF, ["intosole", "u64"]), ("any", []), [])],
           delegate_ident="DelegateInvInto")
+def _renamed(name, decl_names, block_names, **kw):
+    d = Fn(name, SELF, [f"name={n}:u64" for n in decl_names], **kw)
+    d.impl_params = [P(f"name={n}:u64") for n in block_names]
+    return d
+
+
+# impl blocks that use the trait's parameter NAMES in another order (positions are what counts)
+inversion("InvRen", "InvRenImpl", "static", [
+    (_renamed("iren1", ("from", "to"), ("to", "from")), ("any", []), []),
+    (_renamed("iren2", ("from", "to", "amount"), ("amount", "from", "to")), ("impl", ["F0"]), ["f0"]),
+    (_renamed("airen", ("from", "to"), ("to", "from"), is_async=True), ("impl", ["Af0"]), ["af0"]),
+    (_renamed("iren_other", ("a", "b"), ("x", "y")), ("any", []), []),
+], delegate_ident="DelegateInvRen")
+inversion("DynInvRen", "DynInvRenImpl", "dyn", [
+    (_renamed("dren1", ("from", "to"), ("to", "from")), ("any", []), []),
+    (_renamed("dren2", ("lhs", "rhs", "k"), ("rhs", "k", "lhs")), ("any", []), []),
+])
+inversion("InvPre", "InvPreImpl", "static", [(Fn(n, SELF, ["u64", "u64"]), ("any", []), []) for n in ("iget", "iget_all", "iget_", "ige")], delegate_ident="DelegateInvPre")
 inversion("InvPerm", "InvPermImpl", "static", [(Fn(f"iperm{_i}", SELF, [f"name={n}:u64" for n in _pm]), ("any", []), []) for _i, _pm in enumerate(_PERMS)],
           delegate_ident="DelegateInvPerm")
 inversion("DynInvPerm", "DynInvPermImpl", "dyn", [(Fn(f"dperm{_i}", SELF, [f"name={n}:u64" for n in _pm]), ("any", []), []) for _i, _pm in enumerate(_PERMS)])
@@ -1925,6 +1962,9 @@ umodule("umzn", "Umzn", [Fn(f"umzn_{n}", ("nodeps", []), ["u64", "u64"]) for n i
 umodule("aumz", "Aumz", [Fn(f"aumz_{n}", ("impl", ["Au0"]), ["u64", "u64"], is_async=True, calls=["au0"]) for n in "ba"])
 umodule("umzv", "Umzv", [Fn(f"umzv_{n}", ("impl", ["U0"]), ["u64", "u64"], vis=v) for n, v in zip("cadb", ["pub(crate)", "pub", "pub(in crate)", "pub"])])
 umodule("umlt", "Umlt", [Fn("umlt_a", ("impl", ["U0"]), ["refa", "u64"], ret="refarg", deps_lt=True), Fn("umlt_b", ("impl", ["U0"]), ["refa", "u64"], ret="refarg", deps_lt=True)])
+umodule("umpre", "Umpre", [Fn("up", ("impl", ["U0"]), ["u64", "u64"], calls=["u0"]), Fn("up_all", ("impl", ["U0"]), ["u64", "u64"]), Fn("up_all_x", ("impl", ["U0"]), ["u64", "u64"]),
+                            Fn("u", ("impl", ["U0"]), ["u64", "u64"])])
+umodule("umpren", "Umpren", [Fn("upn", ("nodeps", []), ["u64", "u64"]), Fn("upn_all", ("nodeps", []), ["u64", "u64"]), Fn("upn_", ("nodeps", []), ["u64", "u64"])], nodeps=True)
 umodule("umzf", "Umzf", [Fn(f"umzf_{n}", ("nodeps", []), ["u64", "u64"]) for n in "zxy"], nodeps=True, fillers=(0, 1))
 
 
@@ -2148,6 +2188,105 @@ def macro_generated():
 
 
 macro_generated()
+
+
+# --------------------------------------------------------------------------
+# SAME-NAMED items in different modules whose parameter lists are permutations of one another
+# (same names, same types): what a memo kept ACROSS expansions and keyed by (name, types) or by
+# an order-insensitive fingerprint needs in one compilation
+# --------------------------------------------------------------------------
+def same_name_families():
+    perms = [("from", "to", "amount"), ("to", "from", "amount"), ("amount", "to", "from")]
+    cid = new_container()
+    cfg = ccfg(cid)
+    text = cmark(cid)
+
+    def mk(name, is_async, section, props, pair, pm, dynamic=False):
+        fn = Fn(name, ("impl", ["F0"]), [f"name={n}:u64" for n in pm], is_async=is_async)
+        if pair:
+            FN_COUNTER[0] += 2
+            fn.fn_id = FN_COUNTER[0] - 1
+            fn.fn_ids = (fn.fn_id, fn.fn_id + 1)
+            fn.method_id = METHOD_COUNTER[0]
+            METHOD_COUNTER[0] += 1
+            METHODS.append(fn)
+            assert name not in ALL_FNS
+            ALL_FNS[name] = fn
+        else:
+            register(fn)
+        fn.cid = cid
+        fn.section = section
+        fn.props = list(props)
+        fn.lookups = 0
+        fn.dynamic = dynamic
+        return fn
+
+    def body(idexpr, recv, pm, asy, ind="        "):
+        pause = "sim::pause(&__f).await;" if asy else "sim::sync_point(&__f);"
+        return (f"{ind}let __f = sim::enter({idexpr}, {recv}, &[{', '.join(pm)}]);\n{ind}sim::user_alloc(&__f);\n{ind}{pause}\n{ind}sim::exit(__f, &[])\n")
+
+    for i, pm in enumerate(perms, 1):
+        sig = ", ".join(f"{n}: u64" for n in pm)
+        # 1. fn with generic deps, sync and async
+        f = mk(f"snf_v{i}", False, "fn", ("C01", "C14"), False, pm)
+        fa = mk(f"asnf_v{i}", True, "fn", ("C01", "C14"), False, pm)
+        text += (f"{cfg}pub mod sn_fn_v{i} {{\n    use super::*;\n    #[entrait(pub Xfer)]\n    pub fn xfer(deps: &impl F0, {sig}) -> u64 {{\n" + body(f.fn_id, "sim::addr(deps)", pm, False)
+                 + f"    }}\n    #[entrait(pub Axfer)]\n    pub async fn axfer(deps: &impl Af0, {sig}) -> u64 {{\n" + body(fa.fn_id, "sim::addr(deps)", pm, True) + "    }\n}\n")
+        f.trait_call, f.direct_call, f.recv_expr = f"sn_fn_v{i}::Xfer::xfer(app, {{args}})", f"sn_fn_v{i}::xfer(app, {{args}})", "sim::addr(app)"
+        fa.trait_call, fa.direct_call, fa.recv_expr = f"sn_fn_v{i}::Axfer::axfer(app, {{args}})", f"sn_fn_v{i}::axfer(app, {{args}})", "sim::addr(app)"
+        # 2. no_deps fn with a mock API (un-mock path)
+        g = mk(f"snnd_v{i}", False, "unmock", ("C01", "C11"), False, pm)
+        g.deps = ("nodeps", [])
+        UNMOCK.append(g)
+        text += (f"{cfg}pub mod sn_nd_v{i} {{\n    use super::*;\n    #[entrait(pub XferNd, no_deps, mock_api = XferNdMock, export)]\n    pub fn xfer_nd({sig}) -> u64 {{\n" + body(g.fn_id, "0", pm, False) + "    }\n}\n")
+        g.trait_call, g.direct_call, g.recv_expr = f"sn_nd_v{i}::XferNd::xfer_nd(app, {{args}})", f"sn_nd_v{i}::xfer_nd({{args}})", "0"
+        # 3. fn inside an entraited module (generic deps, mock API)
+        m = mk(f"snm_v{i}", False, "unmock", ("C01", "C11"), False, pm)
+        m.deps = ("impl", ["U0"])
+        UNMOCK.append(m)
+        text += (f"{cfg}pub mod sn_mod_v{i} {{\n    use super::*;\n    #[entrait(pub XferM, mock_api = XferMMock, export)]\n    pub mod xm {{\n        use super::*;\n        pub fn xfer_m(deps: &impl U0, {sig}) -> u64 {{\n"
+                 + body(m.fn_id, "sim::addr(deps)", pm, False, ind="            ") + "        }\n    }\n}\n")
+        m.trait_call, m.direct_call, m.recv_expr = f"sn_mod_v{i}::XferM::xfer_m(app, {{args}})", f"sn_mod_v{i}::xm::xfer_m(app, {{args}})", "sim::addr(app)"
+        # 4. entraited trait, Self delegation (sync + async)
+        t = mk(f"snt_v{i}", False, "trait", ("C06", "C14"), True, pm)
+        ta = mk(f"asnt_v{i}", True, "trait", ("C06", "C14"), True, pm)
+        text += (f"{cfg}pub mod sn_tr_v{i} {{\n    use super::*;\n    #[entrait]\n    pub trait XferT {{\n        fn xfer_t(&self, {sig}) -> u64;\n        async fn axfer_t(&self, {sig}) -> u64;\n    }}\n"
+                 f"    impl<const K: u16> XferT for App<K> {{\n        fn xfer_t(&self, {sig}) -> u64 {{\n" + body(f"{t.fn_id} + K", "sim::addr(self)", pm, False, ind="            ")
+                 + f"        }}\n        async fn axfer_t(&self, {sig}) -> u64 {{\n" + body(f"{ta.fn_id} + K", "sim::addr(self)", pm, True, ind="            ") + "        }\n    }\n}\n")
+        for x, nm in ((t, "xfer_t"), (ta, "axfer_t")):
+            x.trait_call, x.direct_call, x.recv_expr = f"sn_tr_v{i}::XferT::{nm}(app, {{args}})", f"sn_tr_v{i}::XferT::{nm}(app.as_ref(), {{args}})", "sim::addr(app.as_ref())"
+        # 5. entraited trait, delegate_by = ref
+        r = mk(f"snr_v{i}", False, "trait", ("C06",), True, pm, dynamic=True)
+        field = f"prov_snr_v{i}"
+        APP_FIELDS.append(field)
+        k = lookup_kind(f"SnR{i}")
+        text += (f"{cfg}pub mod sn_trr_v{i} {{\n    use super::*;\n    #[entrait(delegate_by = ref)]\n    pub trait XferR: 'static {{\n        fn xfer_r(&self, {sig}) -> u64;\n    }}\n"
+                 f"    impl XferR for Prov {{\n        fn xfer_r(&self, {sig}) -> u64 {{\n" + body(f"{r.fn_id} + self.which", "sim::addr(self)", pm, False, ind="            ") + "        }\n    }\n"
+                 f"    impl<const K: u16> AsRef<dyn XferR> for App<K> {{\n        fn as_ref(&self) -> &(dyn XferR + 'static) {{\n            sim::lookup({k});\n            &self.{field}\n        }}\n    }}\n}}\n")
+        r.trait_call, r.direct_call, r.recv_expr = f"sn_trr_v{i}::XferR::xfer_r(app, {{args}})", f"sn_trr_v{i}::XferR::xfer_r(&app.{field}, {{args}})", f"sim::addr(&app.{field})"
+        r.lookups, r.lookup_kind = 1, k
+        # 6. dependency inversion, static and dynamic
+        iv = mk(f"sni_v{i}", False, "inversion", ("C07", "C14"), True, pm)
+        dv = mk(f"snd_v{i}", False, "inversion", ("C07",), True, pm, dynamic=True)
+        kd = lookup_kind(f"SnD{i}")
+        text += (f"{cfg}pub mod sn_inv_v{i} {{\n    use super::*;\n    #[entrait(XferIImpl, delegate_by = DelegateXferI)]\n    pub trait XferI {{\n        fn xfer_i(&self, {sig}) -> u64;\n    }}\n"
+                 f"    #[entrait(XferDImpl, delegate_by = ref)]\n    pub trait XferD {{\n        fn xfer_d(&self, {sig}) -> u64;\n    }}\n"
+                 "    pub struct TA(pub u64);\n    pub struct TB(pub u64);\n")
+        for which, ab in enumerate("AB"):
+            text += (f"    #[entrait]\n    impl XferIImpl for T{ab} {{\n        pub fn xfer_i(deps: &impl F0, {sig}) -> u64 {{\n" + body(iv.fn_ids[which], "sim::addr(deps)", pm, False, ind="            ") + "        }\n    }\n"
+                     f"    #[entrait(ref)]\n    impl XferDImpl for T{ab} {{\n        pub fn xfer_d(deps: &impl F0, {sig}) -> u64 {{\n" + body(dv.fn_ids[which], "sim::addr(deps)", pm, False, ind="            ") + "        }\n    }\n"
+                     f"    impl DelegateXferI<Self> for App<{which}> {{\n        type Target = T{ab};\n    }}\n")
+            dfield = f"dyn_snd_v{i}_{ab.lower()}"
+            APP_FIELDS_TYPED.append((dfield, f"sn_inv_v{i}::T{ab}"))
+            text += (f"    impl AsRef<dyn XferDImpl<Self>> for App<{which}> {{\n        fn as_ref(&self) -> &(dyn XferDImpl<Self> + 'static) {{\n            sim::lookup({kd});\n            &self.{dfield}\n        }}\n    }}\n")
+        text += "}\n"
+        iv.trait_call, iv.direct_call, iv.recv_expr = f"sn_inv_v{i}::XferI::xfer_i(app, {{args}})", f"sn_inv_v{i}::T{{AB}}::xfer_i(app, {{args}})", "sim::addr(app)"
+        dv.trait_call, dv.direct_call, dv.recv_expr = f"sn_inv_v{i}::XferD::xfer_d(app, {{args}})", f"sn_inv_v{i}::T{{AB}}::xfer_d(app, {{args}})", "sim::addr(app)"
+        dv.lookups, dv.lookup_kind = 1, kd
+    corpus.append(text + cmark(0))
+
+
+same_name_families()
 
 
 # --------------------------------------------------------------------------
